@@ -38,7 +38,13 @@ for p in "${patches[@]}"; do
     out=$(cd "$S/out" && VERIF_ROOT="$S/out" timeout 600 "$S/target/release/ebml-sim" "$c" quick 2>/dev/null); rc=$?
     if [ $rc -eq 1 ] && echo "$out" | grep -q "^VIOLATION property=$c "; then
       clause=$(echo "$out" | grep -o "violates clause '[^']*'" | head -1 | sed "s/violates clause //")
-      line="$line $c=CAUGHT($clause)"; caught_any=1
+      # the replay file must reproduce the violation in a fresh process (same mutated library) ...
+      rp=$(echo "$out" | sed -n "s/^VIOLATION property=$c replay=//p" | head -1)
+      (cd "$S/out" && VERIF_ROOT="$S/out" timeout 120 "$S/target/release/ebml-sim" replay "$rp" >/dev/null 2>&1); rrc=$?
+      # ... and must not fail against the unchanged library
+      (cd "$S/out" && VERIF_ROOT="$S/out" timeout 120 "$VERIF/sim/target/release/ebml-sim" replay "$rp" >/dev/null 2>&1); urc=$?
+      rep="replay-ok"; [ $rrc -ne 1 ] && rep="REPLAY-DID-NOT-REPRODUCE(rc$rrc)"; [ $urc -eq 1 ] && rep="$rep,REPLAY-FAILS-ON-UNCHANGED-TREE"
+      line="$line $c=CAUGHT($clause,$rep)"; caught_any=1
     elif [ $rc -eq 0 ]; then line="$line $c=missed"
     else line="$line $c=rc$rc"; fi
   done
